@@ -48,6 +48,13 @@ def check(run):
     for q in QUERIES:
         st = run.explore(f'TR {q}? with a symbolic return value, std::vec::Vec<u8> writer (std-feature MIR)', SPEC + ({'query': q, 'maxlen': ml, 'writer': 'std'},), 1200 if thorough else 300, std=True)
         records.extend(st['records'])
+    COMP = ('mirsym.checks.response_level', 'CompoundResponseCheck')
+    st = run.explore('compound messages: twin', COMP + ({'k': 2, 'twin': True},), 300)
+    if not any(r.get('violations') for r in st['records']):
+        raise Inconclusive('vacuity twin (compound messages) found nothing')
+    st = run.explore('compound messages of 2..3 units out of 4 queries, a command, an undefined header and a rejected query, with and without a trailing ";": responses in execution order, each followed by its own newline and flush before the next unit writes',
+                     COMP + ({'k': 3},), 600)
+    records.extend(st['records'])
     st = run.explore('no-output cases: command, handler error (custom / unit), rejected argument, undefined header, query on a command', NOOUT + ({},), 300)
     records.extend(st['records'])
     viol = {}
@@ -78,6 +85,26 @@ def confirm(run, v):
     detail = {}
     ok_all = False      # reproduced in the dev or the release profile (both recorded)
     for rel in (False, True):
+        if v['rule'] == 'COMPOUND':
+            o = run.native([{'entry': 'run', 'device': 'TR', 'input': v['input'], 'cap': None}], release=rel)[0]
+            # independent reading of the native writer calls: a flush right after every newline that ends a response
+            ops = o.get('wops', [])
+            out = bytes.fromhex(o.get('out', ''))
+            nl = out.count(b'\n')
+            flushes = [i for i, x in enumerate(ops) if x == 'F']
+            ok = len(flushes) != nl or (bool(ops) and ops[-1] != 'F')
+            if not ok:
+                # every flush must directly follow the write of a newline: rebuild positions
+                pos = 0
+                for x in ops:
+                    if x == 'F':
+                        if pos == 0 or out[pos - 1:pos] != b'\n':
+                            ok = True
+                    else:
+                        pos += int(x[1:]) if len(x) > 1 and x[1:].isdigit() else 1
+            detail['release' if rel else 'dev'] = {'observation': o, 'reproduced': ok}
+            ok_all = ok_all or ok
+            continue
         if v['rule'] == 'OUTPUT':
             scripts = [None, {'0': ['custom', -7, '78']}, {'0': ['unit', -200]}, None, None, None]
             o = run.native([{'entry': 'run', 'device': 'TR', 'input': v['input'], 'cap': None, 'script': scripts[v.get('case', 0)]}], release=rel)[0]
